@@ -80,6 +80,7 @@ func (x *c13Exec) stmt(st *c13State, fr *c13Fr, s ast.Stmt, label string, k c13K
 				return
 			}
 			x.evalRHS(s2, fr, vs.Values, len(lhs), func(s3 *c13State, vals []*c13Term) {
+				vals = x.convertAll(vals, c13SrcTypes(fr.info, vs.Values, len(vals)), func(i int) types.Type { return c13LhsType(fr.info, lhs[i]) })
 				x.assign(s3, fr, lhs, vals, func(s4 *c13State) { step(s4, i+1) })
 			})
 		}
@@ -114,6 +115,10 @@ func (x *c13Exec) stmt(st *c13State, fr *c13Fr, s ast.Stmt, label string, k c13K
 		}
 		x.evalRHS(st, fr, v.Results, -1, func(s2 *c13State, vals []*c13Term) {
 			s2.last = v.Pos()
+			if fr.res != nil && fr.res.Len() == len(vals) {
+				// a concrete nil returned in an interface-typed result is a non-nil interface value
+				vals = x.convertAll(vals, c13SrcTypes(fr.info, v.Results, len(vals)), func(i int) types.Type { return fr.res.At(i).Type() })
+			}
 			k(s2, c13Return, "", vals)
 		})
 	case *ast.BranchStmt:
@@ -175,6 +180,7 @@ func (x *c13Exec) assignStmt(st *c13State, fr *c13Fr, v *ast.AssignStmt, next fu
 				x.unsupported(s2, v.Pos(), "assignment `%s` with %d values", src(x.fset, v), len(vals))
 				return
 			}
+			vals = x.convertAll(vals, c13SrcTypes(fr.info, v.Rhs, len(vals)), func(i int) types.Type { return c13LhsType(fr.info, v.Lhs[i]) })
 			x.assign(s2, fr, v.Lhs, vals, next)
 		})
 	default:
@@ -264,11 +270,7 @@ func (x *c13Exec) assign(st *c13State, fr *c13Fr, lhs []ast.Expr, vals []*c13Ter
 							nc.fields[f] = val
 						}
 						s2.heap[base.id] = nc
-						for _, lp := range s2.loops {
-							if lp.touched != nil {
-								lp.touched[base.id] = true
-							}
-						}
+						x.noteHeapStore(s2, base.id, f)
 						cont(s2)
 						return
 					}
@@ -511,6 +513,10 @@ func (x *c13Exec) newLoop(st *c13State, fr *c13Fr, s ast.Stmt, xs *c13Term, vars
 func (x *c13Exec) loopDone(l *c13Loop, label string, s *c13State, ctl int, lbl string, vals []*c13Term, k c13K) {
 	out := map[types.Object]*c13Term{}
 	for _, w := range l.vars {
+		if hs, isHeap := x.heapSlots[w]; isHeap {
+			out[w] = x.heapRead(s, hs)
+			continue
+		}
 		out[w] = s.env[w]
 	}
 	switch {
@@ -534,7 +540,7 @@ func (x *c13Exec) loopDone(l *c13Loop, label string, s *c13State, ctl int, lbl s
 func (x *c13Exec) afterLoop(st *c13State, l *c13Loop, k c13K) {
 	for _, w := range l.vars {
 		// a variable no path through the body changes keeps its value
-		in := x.loopVar(c13OpLoopIn, l, w)
+		in := x.loopVal(c13OpLoopIn, l, w)
 		same := true
 		for _, its := range [][]*c13Iter{l.iters, l.breaks} {
 			for _, it := range its {
@@ -543,11 +549,17 @@ func (x *c13Exec) afterLoop(st *c13State, l *c13Loop, k c13K) {
 				}
 			}
 		}
+		if hs, isHeap := x.heapSlots[w]; isHeap {
+			if !same {
+				x.heapWrite(st, hs, x.loopVal(c13OpLoopOut, l, w))
+			}
+			continue
+		}
 		if same && l.pre[w] != nil {
 			st.env[w] = l.pre[w]
 			continue
 		}
-		st.env[w] = x.loopVar(c13OpLoopOut, l, w)
+		st.env[w] = x.loopVal(c13OpLoopOut, l, w)
 	}
 	for id := range l.touched {
 		if c := st.heap[id]; c != nil {
@@ -564,6 +576,14 @@ func (x *c13Exec) rangeStmt(st *c13State, fr *c13Fr, v *ast.RangeStmt, label str
 			x.unrollRange(s, fr, v, xs, label, k)
 			return
 		}
+		hv := x.probeHeap(s, func(ps *c13State, pk c13K) *c13Loop { return x.rangeCore(ps, fr, v, xs, label, nil, pk) })
+		x.rangeCore(s, fr, v, xs, label, hv, k)
+	})
+}
+
+// rangeCore executes a range loop over xs; hvars are the fields of fresh objects the body writes (carried like variables).
+func (x *c13Exec) rangeCore(s *c13State, fr *c13Fr, v *ast.RangeStmt, xs *c13Term, label string, hvars []types.Object, k c13K) *c13Loop {
+	{
 		vars := x.carried(s, fr.info, []ast.Node{v.Body}, v.Body.Pos(), v.Body.End())
 		if v.Tok == token.ASSIGN {
 			vars = x.carried(s, fr.info, []ast.Node{v}, v.Body.Pos(), v.Body.End())
@@ -571,8 +591,9 @@ func (x *c13Exec) rangeStmt(st *c13State, fr *c13Fr, v *ast.RangeStmt, label str
 		l := x.newLoop(s, fr, v, xs, vars)
 		b := s.clone()
 		for _, w := range vars {
-			b.env[w] = x.loopVar(c13OpLoopIn, l, w)
+			b.env[w] = x.loopVal(c13OpLoopIn, l, w)
 		}
+		x.bindHeapVars(l, b, hvars)
 		b.loops = append(b.loops, l)
 		// key and value of the iteration
 		var keyT, valT *c13Term
@@ -606,11 +627,12 @@ func (x *c13Exec) rangeStmt(st *c13State, fr *c13Fr, v *ast.RangeStmt, label str
 			x.loopDone(l, label, s2, ctl, lbl, vals, k)
 		})
 		x.afterLoop(s, l, k)
-	})
+		return l
+	}
 }
 
 func (x *c13Exec) forStmt(st *c13State, fr *c13Fr, v *ast.ForStmt, label string, k c13K) {
-	run := func(s *c13State) {
+	core := func(s *c13State, hvars []types.Object, k c13K) *c13Loop {
 		var nodes []ast.Node
 		if v.Cond != nil {
 			nodes = append(nodes, v.Cond)
@@ -623,8 +645,9 @@ func (x *c13Exec) forStmt(st *c13State, fr *c13Fr, v *ast.ForStmt, label string,
 		l := x.newLoop(s, fr, v, nil, vars)
 		b := s.clone()
 		for _, w := range vars {
-			b.env[w] = x.loopVar(c13OpLoopIn, l, w)
+			b.env[w] = x.loopVal(c13OpLoopIn, l, w)
 		}
+		x.bindHeapVars(l, b, hvars)
 		b.loops = append(b.loops, l)
 		body := func(s2 *c13State) {
 			x.block(s2, fr, v.Body.List, func(s3 *c13State, ctl int, lbl string, vals []*c13Term) {
@@ -643,9 +666,14 @@ func (x *c13Exec) forStmt(st *c13State, fr *c13Fr, v *ast.ForStmt, label string,
 			body(b)
 		}
 		if v.Cond == nil && len(l.breaks) == 0 {
-			return // `for { ... }` without break: nothing follows
+			return l // `for { ... }` without break: nothing follows
 		}
 		x.afterLoop(s, l, k)
+		return l
+	}
+	run := func(s *c13State) {
+		hv := x.probeHeap(s, func(ps *c13State, pk c13K) *c13Loop { return core(ps, nil, pk) })
+		core(s, hv, k)
 	}
 	if v.Init != nil {
 		x.stmt(st, fr, v.Init, "", func(s *c13State, ctl int, _ string, _ []*c13Term) {
@@ -710,4 +738,22 @@ func (x *c13Exec) withField(cur *c13Term, f *types.Var, val *c13Term) *c13Term {
 		ks = []*types.Var{}
 	}
 	return x.lit(cur.typ, ks, as)
+}
+
+// loopVal is the value of carried variable w at the start of an iteration (op loopin) or after the loop (op loopout).
+// A struct-valued variable is presented field by field (a literal of its symbolic fields), so that code which keeps
+// several loop-carried values in one struct reads and updates them like separate variables.
+func (x *c13Exec) loopVal(op string, l *c13Loop, w types.Object) *c13Term {
+	v := x.loopVar(op, l, w)
+	st, ok := w.Type().Underlying().(*types.Struct)
+	if !ok || st.NumFields() == 0 || st.NumFields() > 16 {
+		return v
+	}
+	keys := make([]*types.Var, st.NumFields())
+	args := make([]*c13Term, st.NumFields())
+	for i := 0; i < st.NumFields(); i++ {
+		keys[i] = st.Field(i)
+		args[i] = x.field(v, st.Field(i), 0)
+	}
+	return x.lit(w.Type(), keys, args)
 }
